@@ -30,24 +30,25 @@ const (
 
 // Ctx is one loaded, type-checked, SSA-built view of the repository.
 type Ctx struct {
-	Repo   string
-	GOOS   string
-	GOARCH string
-	Fset   *token.FileSet
-	Pkgs   []*packages.Package
-	Log    *packages.Package
-	Expr   *packages.Package
-	Prog   *ssa.Program
-	LogS   *ssa.Package
-	ExprS  *ssa.Package
+	narrowAgeMul string // set by durLin when the age arithmetic is done in a narrow integer type
+	Repo         string
+	GOOS         string
+	GOARCH       string
+	Fset         *token.FileSet
+	Pkgs         []*packages.Package
+	Log          *packages.Package
+	Expr         *packages.Package
+	Prog         *ssa.Program
+	LogS         *ssa.Package
+	ExprS        *ssa.Package
 	// all source-level functions of the module (methods, closures, generic instances)
 	Funcs []*ssa.Function
 
-	cgCache map[*ssa.Function][]*ssa.Function
-	provBusy map[provKey]bool
+	cgCache        map[*ssa.Function][]*ssa.Function
+	provBusy       map[provKey]bool
 	libraryIndexed map[*ssa.Function]bool
-	vtaG *callgraph.Graph
-	nm   *Names
+	vtaG           *callgraph.Graph
+	nm             *Names
 }
 
 // LoadOpts selects the build configuration and an optional overlay.
